@@ -139,7 +139,7 @@ func (w *World) checkState(final bool) {
 					subs[x.view.subject] = true
 				}
 			}
-			for d := range w.m.usedDigests {
+			for _, d := range sortedKeys(w.m.usedDigests) {
 				if validDigest(d) && len(subs) < 12 {
 					subs[d] = true
 				}
@@ -204,7 +204,7 @@ func (w *World) checkSessions() {
 			if err == nil {
 				n = len(ents)
 			}
-			if n != perRepo[repo] {
+			if n != perRepo[repo] && !w.tainted[repo] {
 				var names []string
 				for _, e := range ents {
 					names = append(names, e.Name())
@@ -219,6 +219,28 @@ func (w *World) checkSessions() {
 			}
 		}
 	}
+}
+
+func (w *World) anyMaybeGone(mr *MRepo) bool {
+	for _, x := range mr.mans {
+		if x.maybeGone {
+			return true
+		}
+	}
+	return false
+}
+
+func shapeOfChange(d string) string {
+	i := strings.Index(d, `: "`)
+	if i < 0 {
+		return ""
+	}
+	rest := d[i+3:]
+	a, b, _ := strings.Cut(rest, `" -> "`)
+	if len(a) >= 3 && len(b) >= 3 {
+		return a[:3] + "->" + b[:3]
+	}
+	return ""
 }
 
 func cmpWord(a, b int) string {
@@ -450,6 +472,9 @@ func (w *World) opGC(op Op) {
 // opRestart closes the server and opens a new one on the same storage.
 func (w *World) opRestart() {
 	w.settle()
+	if !w.k.readOnly() {
+		w.markCollectable() // Close runs a collection on every open repository
+	}
 	var pre map[string]*obs
 	if w.root != "" && !w.quiet {
 		pre = map[string]*obs{}
@@ -475,15 +500,29 @@ func (w *World) opRestart() {
 		for _, r := range w.allRepoNames() {
 			post := w.observe(r)
 			var diffs []string
+			mr := w.m.repo(r)
 			for k, v := range pre[r].items {
 				if post.items[k] != v {
+					kind, d, _ := strings.Cut(k, " ")
+					// content a collection may legitimately have removed while closing is not compared
+					if b, ok := mr.blobs[d]; kind == "blob" && ok && b.maybeGone {
+						continue
+					}
+					if x, ok := mr.mans[d]; kind == "man" && ok && x.maybeGone {
+						continue
+					}
+					if kind == "refs" || kind == "taglist" {
+						if w.anyMaybeGone(mr) {
+							continue
+						}
+					}
 					diffs = append(diffs, fmt.Sprintf("%s: %q -> %q", k, v, post.items[k]))
 				}
 			}
 			if len(diffs) > 0 {
 				sort.Strings(diffs)
 				kind, _, _ := strings.Cut(diffs[0], " ")
-				w.x.viol([]string{"C10"}, "restart.answer-changed", kind, fmt.Sprintf("%s: answers changed across a clean restart: %s", r, strings.Join(diffs, "; ")))
+				w.x.viol([]string{"C10"}, "restart.answer-changed", kind+" "+shapeOfChange(diffs[0]), fmt.Sprintf("%s: answers changed across a clean restart: %s", r, strings.Join(diffs, "; ")))
 			}
 		}
 	}
